@@ -227,6 +227,16 @@ def run_C02(ctx):
     cases.extend(threshold_deadline_cases(ctx))
     C.evaluate(ctx, "textdiff-ops", textdiff_lines(ctx, cases), rel, nontrivial=nontrivial_text, cap=60)
     C.evaluate(ctx, "textdiff-65536-distinct", huge_distinct_cases(ctx), rel, x=False, cap=300, nontrivial=nontrivial_text)
+    # LCS with a differing middle of more than 2^24 table cells (mostly distinct items, a few shared)
+    big = []
+    for n in tiered(ctx, [4200], [4097, 4200, 5000]):
+        a = [3 * i for i in range(n)]
+        b = [3 * i + 1 for i in range(n)]
+        for j in range(0, n, 97):
+            b[j] = a[j]
+        big.append(gen.capture_line("L", [7] + a + [9], [7] + b + [9]))
+        ctx.count("capture:lcs-over-2^24-cells")
+    C.evaluate(ctx, "capture-lcs-large-table", big, rel, x=False, cap=300)
 
 
 SPECS["C02"] = dict(
@@ -280,6 +290,32 @@ def run_C03(ctx):
         huge.append(gen.raw_line("M", a, b) + " planted=10000000")
         ctx.count("raw:planted-subsequence-%d" % n)
     C.evaluate(ctx, "raw-many-rounds", huge, rel, x=False, cap=300)
+    # mid-size structured inputs that need hundreds of rounds and contain long common runs off the optimal alignment
+    # (a "good enough" early exit of the middle-snake search would show here): the optimum is too expensive for the
+    # unary-number DP, so Myers and the crate's LCS algorithm are run on the same input and must report the same cost
+    cl = []
+    for _ in range(tiered(ctx, 12, 60)):
+        n = ctx.rng.choice([1200, 2000])
+        fam = ctx.rng.randrange(3)
+        if fam == 0:      # periodic with hundreds of edits on each side
+            per = ctx.rng.choice([7, 23, 40])
+            a = [i % per for i in range(n)]
+            b = list(a)
+            a = gen.edit_seq(ctx.rng, a, ctx.rng.randrange(150, 400), per)
+            b = gen.edit_seq(ctx.rng, b, ctx.rng.randrange(150, 400), per)
+        elif fam == 1:    # one long run of a single item with others sprinkled in
+            a = [0] * n
+            b = [0] * n
+            for _j in range(ctx.rng.randrange(200, 400)):
+                a[ctx.rng.randrange(n)] = ctx.rng.randrange(1, 50)
+                b[ctx.rng.randrange(n)] = ctx.rng.randrange(1, 50)
+        else:             # a displaced copy of a chunk inside otherwise different material
+            chunk = [1000 + i % 30 for i in range(ctx.rng.randrange(40, 200))]
+            a = gen.rand_seq(ctx.rng, n // 2, 200) + chunk + gen.rand_seq(ctx.rng, n // 2, 200)
+            b = chunk + gen.rand_seq(ctx.rng, n // 2, 200) + chunk + gen.rand_seq(ctx.rng, n // 3, 200)
+        cl.append("costs old=%s new=%s" % (gen.fmt_list(a), gen.fmt_list(b)))
+        ctx.count("costs:myers-vs-lcs-structured")
+    C.evaluate(ctx, "costs-myers-vs-lcs", cl, rel, cap=300, nontrivial=lambda comp, kv, impl: "M=0" not in impl)
 
 
 SPECS["C03"] = dict(
@@ -289,7 +325,7 @@ SPECS["C03"] = dict(
         note='Trusted: Coq 8.16.1 kernel; extraction with ExtrOcamlBasic only; OCaml driver and Rust harness glue; the tie of the hand-written model to /repo is the correspondence check (differential testing on the generated inputs, rebuilt from the working tree every run), not a proof about the Rust source. usize wrap-around is not modelled.',
         technique='Coq proof (edit-graph theory, snake correctness, LCS DP) + correspondence + verified checker against extracted optimum',
     ),
-    relevant=lambda comp, kv: {"no_panic", "minimal", "minimal_planted", "equal_is_lcs", "ratio_2L"},
+    relevant=lambda comp, kv: {"no_panic", "minimal", "minimal_planted", "minimal_agree", "equal_is_lcs", "ratio_2L"},
     run=run_C03,
     generators="raw and capture components, algorithms Myers and LCS, no deadline: exhaustive small worlds with "
                "sub-ranges, structured random pairs up to 100, Myers capture up to 250; the optimum is computed by the "
@@ -1478,7 +1514,8 @@ def run_C18(ctx):
     lines = []
     alpha = ["a", "b", "c"]
     words3 = [""] + ["".join(t) for n in (1, 2, 3) for t in __import__("itertools").product(alpha, repeat=n)]
-    multi = ["é", "\U0001F600", "世", "x"]
+    # "e\u0301", CR LF, a ZWJ sequence and a flag are several code points each but one grapheme cluster
+    multi = ["é", "\U0001F600", "世", "x", "e\u0301", "\r\n", "\U0001F468\u200D\U0001F469", "\U0001F1E9\U0001F1EA", "\u0301"]
     for _ in range(tiered(ctx, 1500, 15000)):
         k = ctx.rng.randrange(3)
         if k == 0:
